@@ -39,6 +39,11 @@ class BaseMilstein(base_solver.BaseSDESolver, metaclass=abc.ABCMeta):
                                  f"direct access to the diffusion, whilst adjoint SDEs rely on a more efficient "
                                  f"diffusion-vector product. Use derivative-using Milstein instead: "
                                  f"`adjoint_options=dict({METHOD_OPTIONS.grad_free}=False)`")
+        if isinstance(sde, adjoint_sde.AdjointSDE) and sde.noise_type != NOISE_TYPES.diagonal:
+            # The adjoint SDE only provides the Milstein correction term for diagonal noise.
+            raise ValueError(f"Milstein can only be used for adjoint SDEs of noise type {NOISE_TYPES.diagonal}, but "
+                             f"the adjoint SDE has noise type {sde.noise_type}. Use a different `adjoint_method` "
+                             f"instead.")
         super(BaseMilstein, self).__init__(sde=sde, options=options, **kwargs)
 
     @abc.abstractmethod
